@@ -58,6 +58,9 @@ WSNext(o) ==
       [] o.op \in {"or", "or_assign"}   -> WZip(ws, wt, Or2)
       [] o.op \in {"xor", "xor_assign"} -> WZip(ws, wt, Xor2)
       [] o.op = "not"    -> WNot(ws)
+      [] o.op = "and_self" -> WZip(ws, ws, And2)
+      [] o.op = "or_self"  -> WZip(ws, ws, Or2)
+      [] o.op = "xor_self" -> WZip(ws, ws, Xor2)
       [] OTHER -> ws
 WTNext(o) ==
     CASE o.op = "t_set"  -> WSet(wt, o.x)
